@@ -25,6 +25,7 @@ func init() {
 		Parts: []Part{
 			{Name: "byname", Run: c07Run, QuickS: 60, ThoroughS: 900},
 			{Name: "registration", Run: c07Reg, Workers: 1, QuickS: 30, ThoroughS: 120},
+			{Name: "processor-holders", Run: c07Proc, Workers: 2, QuickS: 30, ThoroughS: 60},
 		},
 	})
 }
@@ -357,5 +358,121 @@ func c07Reg(c *core.Ctx) {
 		if len(cs.Seq) == 3 {
 			c.Sample(map[string]any{"sequence": cs.Seq, "names": names})
 		}
+	})
+}
+
+// ---- by-name points whose holder is a user post-processor (created while the processor chain
+// is being assembled, at its Order position)
+
+type c07PH struct {
+	processors.DefaultComponentPostProcessor
+	F1 *scen.TA `wire:"x"`
+	F2 scen.I1  `wire:"y"`
+	F3 any      `wire:"x"`
+	F4 *scen.TA `wire:"nobody,required=false"`
+}
+
+func (*c07PH) Naming() string { return "zz-c07holder" }
+
+type c07PHOrdered struct {
+	c07PH
+	o int
+}
+
+func (p *c07PHOrdered) Order() int { return p.o }
+
+type c07PHBad struct {
+	processors.DefaultComponentPostProcessor
+	F *scen.TA `wire:"nobody"`
+}
+
+func (*c07PHBad) Naming() string { return "zz-c07holder" }
+
+type c07PHBadOrdered struct {
+	c07PHBad
+	o int
+}
+
+func (p *c07PHBadOrdered) Order() int { return p.o }
+
+type c07ProcCase struct {
+	Order   int  `json:"order"` // -1: unordered
+	Bad     bool `json:"required_point_names_nothing,omitempty"`
+	Default bool `json:"also_a_default_named_TA,omitempty"`
+	Desc    bool `json:"descending_order,omitempty"`
+}
+
+func c07Proc(c *core.Ctx) {
+	gen := func(yield func(c07ProcCase) bool) {
+		// below Order 2 the built-in wiring processor is not in place yet when the holder is created
+		for _, o := range []int{3, 4, 5, 9, 1000, -1} {
+			for _, bad := range []bool{false, true} {
+				for _, def := range []bool{false, true} {
+					for _, desc := range []bool{false, true} {
+						if !yield(c07ProcCase{o, bad, def, desc}) {
+							return
+						}
+					}
+				}
+			}
+		}
+	}
+	Cases(c, gen, func(c *core.Ctx, cs c07ProcCase) {
+		x := scen.BuildInst(scen.Inst{Typ: "TA", Name: "x"}, 0)
+		y := scen.BuildInst(scen.Inst{Typ: "TB", Name: "y"}, 1)
+		comps := []any{x, y}
+		user := map[string]bool{"x": true, "y": true}
+		if cs.Default {
+			comps = append(comps, scen.BuildInst(scen.Inst{Typ: "TA"}, 2))
+			user[scen.DefaultName("TA")] = true
+		}
+		var h *c07PH
+		switch {
+		case cs.Bad && cs.Order < 0:
+			comps = append(comps, &c07PHBad{})
+		case cs.Bad:
+			comps = append(comps, &c07PHBadOrdered{o: cs.Order})
+		case cs.Order < 0:
+			h = &c07PH{}
+			comps = append(comps, h)
+		default:
+			ho := &c07PHOrdered{o: cs.Order}
+			h = &ho.c07PH
+			comps = append(comps, ho)
+		}
+		var base []string
+		if cs.Desc {
+			for k := range user {
+				base = append(base, k)
+			}
+			sort.Sort(sort.Reverse(sort.StringSlice(base)))
+		}
+		o := scen.Start(scen.StartSpec{Ch: envx.Fixed("", nil), Comps: comps, User: user, Base: base})
+		c.S.Evaluations++
+		c.S.Programs++
+		c.S.States++
+		c.S.Nontrivial++
+		c.S.Transitions += int64(o.Trace.Calls)
+		key := "C07/procholder/" + core.Hash(cs)
+		desc := fmt.Sprintf("by-name points held by a user post-processor (Order %d, -1 = unordered)", cs.Order)
+		switch {
+		case o.Panic != "" || o.Abort != "" || len(o.ChildPanics) > 0:
+			c.Outcome("proc/panic")
+			c.Report(key, "panic", desc+": start-up panicked: "+o.Panic+o.Abort, cs)
+		case cs.Bad && o.Err == nil:
+			c.Outcome("proc/missing-error")
+			c.Report(key, "missing-error", desc+": a required point names a component that does not exist, but start-up succeeded", cs)
+		case cs.Bad:
+			c.Outcome("proc/error-as-required")
+		case o.Err != nil:
+			c.Outcome("proc/spurious-error")
+			c.Report(key, "spurious-error", desc+": every named component exists and fits, but start-up failed: "+scen.FirstLine(o.Err), cs)
+		case h.F1 != x || h.F2 != scen.I1(y.(*scen.TB)) || h.F3 != x || h.F4 != nil:
+			c.Outcome("proc/wrong")
+			c.Report(key, "wrong-component", fmt.Sprintf("%s: F1 `x` holds %s, F2 `y` holds %s, F3 `x` holds %s, optional F4 `nobody` holds %s; want x, y, x, nothing", desc, scen.IdOf(h.F1), scen.IdOf(h.F2), scen.IdOf(h.F3), scen.IdOf(h.F4)), cs)
+		default:
+			c.Outcome("proc/ok")
+		}
+		c.Sample(map[string]any{"case": cs, "error": scen.FirstLine(o.Err)})
 	})
 }
